@@ -118,7 +118,7 @@ def run(job) -> JobResult:
         for endian in "<>":
             for align in (False, True):
                 for ptr in ptr_widths(names, tier):
-                    check_case(tuple(names), endian, align, ptr, res, tier)
+                    sc.guarded(res, ID, tuple(names), endian, align, lambda: check_case(tuple(names), endian, align, ptr, res, tier))
     return res
 
 
